@@ -1506,6 +1506,28 @@ func (a allocator) makeArray(l, c int) []any {
 	return v
 }
 
+// release gives up the containers in the value, which is to be stored as a
+// new value. They can be the containers allocated in the previous updates,
+// which the update function has put in the value, possibly more than once,
+// so that they must not be updated in place anymore.
+func (a allocator) release(v any) {
+	if len(a) == 0 {
+		return
+	}
+	switch v := v.(type) {
+	case []any:
+		delete(a, reflect.ValueOf(v).Pointer())
+		for _, v := range v {
+			a.release(v)
+		}
+	case map[string]any:
+		delete(a, reflect.ValueOf(v).Pointer())
+		for _, v := range v {
+			a.release(v)
+		}
+	}
+}
+
 func funcSetpath(v, p, n any) any {
 	// There is no need to use an allocator on a single update.
 	return setpath(v, p, n, nil)
@@ -1521,6 +1543,7 @@ func setpath(v, p, n any, a allocator) any {
 	if !ok {
 		return &func1TypeError{"setpath", v, p}
 	}
+	a.release(n)
 	u, err := update(v, path, n, a)
 	if err != nil {
 		return &func2WrapError{"setpath", v, p, n, err}
